@@ -153,7 +153,7 @@ def main(tier, seed):
     for ai, (aname, temps) in enumerate(wh_plan):
         ads = pygaps.Adsorbate.find(aname)
         p_t, p_c = float(ads.p_triple()), float(ads.p_critical())
-        hv_t = float(ads.enthalpy_vaporisation(press=p_t))
+        hv_t = float(hvap_direct(ads, p_t))
         for ti, temp in enumerate(temps):
             p_sat = float(ads.saturation_pressure(temp))
             p_hi = min(p_sat, p_c)
@@ -293,10 +293,23 @@ def main(tier, seed):
                    "Initial point: 12 branch layouts x 3 enthalpy patterns x 2 branches from the spec. distinct = distinct scenario; initial-point cases whose branch is empty are trivial")
     run.assume("K(T) = K0 exp(dH/RT) with R = 8.314462618 J/(mol K) is computed by the harness (input); ln and real powers of the Whittaker closed form are harness input, "
                "the formula itself (lambda + h_vap + RT, pressure of a loading, omission classes) is evaluated by TLC")
+    run.assume("h_vap(p) is an independent reference: CoolProp (HEOS) queried directly with a private state object, not through Adsorbate; "
+               "p_triple, p_sat, p_critical are observations of the adsorbate API")
     run.assume("relative-pressure mode and temperature-dependent bases (volume_liquid) are not 'common units' for Clausius-Clapeyron and are not exercised")
     run.assume("loadings below the triple-point pressure may be omitted or reported with h_vap at the triple point (documented); loadings between p_sat and p_c may be omitted; "
                "fidelity of the lambda expression to Whittaker et al. is not decided (DESIGN section 8)")
     return run.finish()
+
+
+def hvap_direct(ads, press):
+    """Vaporisation enthalpy (kJ/mol) on the saturation line at pressure `press`, queried from CoolProp directly with a
+    private state object - an independent reference: nothing cached inside Adsorbate can reach it."""
+    import CoolProp as CP
+    st = CP.AbstractState("HEOS", ads.properties["backend_name"])
+    st.update(CP.PQ_INPUTS, press, 0.0)
+    h_liq = st.hmolar()
+    st.update(CP.PQ_INPUTS, press, 1.0)
+    return (st.hmolar() - h_liq) / 1000.0
 
 
 def whit_query(ads, model, par, t, temp, p_t, p_c, p_sat, hv_t, loads, out, nm=None):
@@ -317,7 +330,7 @@ def whit_query(ads, model, par, t, temp, p_t, p_c, p_sat, hv_t, loads, out, nm=N
         p = th / (K * r)
         if p_t <= p <= p_c:
             try:
-                hvap.append(enc(ads.enthalpy_vaporisation(press=p)))
+                hvap.append(enc(hvap_direct(ads, p)))
             except Exception:
                 hvap.append(NOVAL)
         else:
